@@ -269,6 +269,56 @@ def freshness_findings(repo: Repo, R: Resolver, m: ModuleInfo, fn: ast.FunctionD
                 res.add(Finding("C20", "FRESH.argument-returned", m.rel, qual, norm(r),
                                 f"a container {role} returns its argument: the result shares its container with the caller's "
                                 "datum", r.lineno))
+    # (a') an ELEMENT of a container built once in the factory is handed out: sound for immutable elements (a str out of a
+    # member -> name table), not for elements that are containers themselves (a precomputed list per member)
+    def element_is_container(name: str) -> Optional[str]:
+        if name in local:
+            return None
+        for av in R.resolve(ast.Name(id=name, ctx=ast.Load()), fctx):
+            av = strip_elemof(av)
+            if av[0] != "expr":
+                continue
+            e = av[1]
+            vals: List[ast.expr] = []
+            if isinstance(e, ast.DictComp):
+                vals = [e.value]
+            elif isinstance(e, ast.Dict):
+                vals = [v for v in e.values if v is not None]
+            elif isinstance(e, (ast.ListComp, ast.SetComp)):
+                vals = [e.elt]
+            elif isinstance(e, (ast.List, ast.Tuple)):
+                vals = list(e.elts)
+            for v in vals:
+                if _is_mutable_expr(v) or isinstance(v, (ast.ListComp, ast.DictComp, ast.SetComp)):
+                    return norm(e)[:60]
+                if isinstance(v, ast.Call) and isinstance(v.func, ast.Name):
+                    # a nested function of the factory that returns a list it has built
+                    encl = m.enclosing_function(fn)
+                    helper = next((d for d in ast.walk(encl) if isinstance(d, ast.FunctionDef) and d.name == v.func.id), None) if encl else None
+                    if helper is not None:
+                        built = {t.id for a in ast.walk(helper) if isinstance(a, ast.Assign) and _is_mutable_expr(a.value)
+                                 for t in a.targets if isinstance(t, ast.Name)}
+                        for r2 in [x for x in ast.walk(helper) if isinstance(x, ast.Return) and x.value is not None]:
+                            if _is_mutable_expr(r2.value) or any(isinstance(x, ast.Name) and x.id in built for x in ast.walk(r2.value)):
+                                return norm(e)[:60]
+        return None
+    for r in [x for x in walk_no_nested(fn) if isinstance(x, ast.Return) and x.value is not None]:
+        v = r.value
+        base = None
+        if isinstance(v, ast.Subscript) and isinstance(v.value, ast.Name):
+            base = v.value.id
+        elif isinstance(v, ast.Call) and isinstance(v.func, ast.Attribute) and v.func.attr in ("get", "__getitem__") \
+                and isinstance(v.func.value, ast.Name):
+            base = v.func.value.id
+        if base is None:
+            continue
+        res.evaluated(f"fresh:return-element:{m.rel}:{qual}:{base}", True)
+        h = element_is_container(base)
+        if h is not None:
+            res.add(Finding("C20", "FRESH.hoisted-container-element-returned", m.rel, qual, norm(r),
+                            f"the {role} returns `{norm(v)}`, an element of `{base}` which the factory built once (`{h}`) and whose elements are "
+                            "containers: every call that hits the entry returns the SAME list, a caller that appends to or clears one "
+                            "result corrupts all later results", r.lineno))
     # (b) free containers filled in the closure
     for node in walk_no_nested(fn, include_root=False):
         name = None
